@@ -725,6 +725,26 @@ def startpoints(w, repo):
             rc, out, err = run([find_bin(repo)] + toks, cwd=cwd)
             bad = b"nrecognized" in err or b"invalid expression" in err.lower()
             return (True if bad else False), "find %s: rc=%d stderr=%r" % (" ".join(toks), rc, err.decode(errors="replace").strip()[:120])
+        if "follow mode" in what:
+            # observable: a starting point that is a link to a directory holding a link to a directory.  Never: the link alone; Roots: its contents, the inner link not
+            # descended; Always: the inner link descended as well
+            flags = []
+            for t in toks:
+                if t in ("-H", "-L", "-P") or t.startswith("-O"):
+                    flags.append(t)
+                else:
+                    break
+            os.makedirs(os.path.join(d, "t", "real", "sub"))
+            open(os.path.join(d, "t", "real", "sub", "f"), "w").close()
+            os.symlink("sub", os.path.join(d, "t", "real", "inner"))
+            os.symlink("real", os.path.join(d, "t", "lnk"))
+            rc, out, err = run([find_bin(repo)] + flags + ["lnk"], cwd=os.path.join(d, "t"))
+            lines = set(out.decode(errors="replace").split())
+            got = "Always" if "lnk/inner/f" in lines else "Roots" if "lnk/sub/f" in lines else "Never"
+            want = "Never"
+            for t in flags:
+                want = {"-H": "Roots", "-L": "Always", "-P": "Never"}.get(t, want)
+            return (got != want), "find %s lnk: behaves as follow mode %s, the flags mean %s" % (" ".join(flags), got, want)
         rc, out, err = run([find_bin(repo)] + toks + ["-maxdepth", "0"] if not any(t in ("-print", "-true", "-quit", "!", "(", "-bogus") for t in toks) else [find_bin(repo)] + toks, cwd=cwd)
         missing = [t for t in toks if t == "a"]
         if "exit status zero" in what:
@@ -799,14 +819,22 @@ def reader_bytes(w, repo):
             if delim is None or delim >= 0x80 or delim in (0x5C,):
                 return None, "delimiter %r cannot be given as a single-byte -d operand" % (delim,)
             dstr = {0x0A: "\\n", 0x09: "\\t", 0x0B: "\\v"}.get(delim, chr(delim))
-            rc, out, e = run([xargs_bin(repo), "-d", dstr, script], cwd=d, inp=data)
             toks = [t for t in data.split(bytes([delim])) if t]
             err = False
+            # every argument reaches the command byte for byte (no lossy conversion), under the witness's read() sizes and with everything in one piece
+            for pieces in chunkings(data, w.get("chunks")) + [[data]]:
+                if os.path.exists(out_path):
+                    os.remove(out_path)
+                rc, out, e = run_chunked([xargs_bin(repo), "-d", dstr, script], pieces, cwd=d)
+                got = open(out_path, "rb").read().split(b"\0")[:-1] if os.path.exists(out_path) else []
+                if not (got == toks and rc == 0):
+                    return True, "input %r -d %#x delivered as read()s %r: xargs delivered %r (rc=%d), reference %r" % (data, delim, pieces, got, rc, toks)
+            return False, "input %r -d %#x: like the reference under every chunking tried" % (data, delim)
         else:
             toks, err, amb = _ref_tokens(data)
             if amb:
                 return None, "'' as a whole token: outside the claim"
-            want = [t.decode("utf-8", errors="replace").encode() for t in toks]
+            want = list(toks)            # byte for byte: bytes that are not UTF-8 included
             for pieces in chunkings(data, w.get("chunks")):
                 if os.path.exists(out_path):
                     os.remove(out_path)
